@@ -483,7 +483,7 @@ fn render(t: &T, choice: &dyn Fn(usize, Site) -> usize) -> (String, Vec<Site>) {
 fn layout_checks(ctx: &Ctx, t: &T, thorough: bool) {
     let want = t.to_expr();
     let (base, sites) = render(t, &|_, _| 0);
-    let check = |text: &str, what: String| {
+    let check1 = |text: &str, what: String| {
         ctx.count(1);
         let got = parse_one(text);
         if !matches!(&got, Ok(e) if *e == want) {
@@ -498,6 +498,13 @@ fn layout_checks(ctx: &Ctx, t: &T, thorough: bool) {
                 },
                 case: json!({"text": text, "base": base}),
             });
+        }
+    };
+    let check = |text: &str, what: String| {
+        check1(text, what.clone());
+        // the same layout with Windows line endings
+        if text.contains('\n') {
+            check1(&text.replace('\n', "\r\n"), format!("{}+crlf", what));
         }
     };
     check(&base, "base".into());
